@@ -144,6 +144,7 @@ class OffsetStore(object):
     def __init__(self, committed=None):
         self.committed = committed
         self.acked = []
+        self.lost = []       # offsets the coordinator APPLIED although the consumer only saw a failure (reply lost)
 
 
 # ---------------------------------------------------------------- processor results beyond consumer_lib's
@@ -184,6 +185,7 @@ class Env(object):
     def __init__(self, rnd, log, store, fault=0.12, corrupt=0.0):
         self.rnd, self.log, self.store, self.fault, self.corrupt = rnd, log, store, fault, corrupt
         self.corrupted = 0             # replies garbled in transit (their decoding raises mid-way: outside the Gallina model)
+        self.lost_commits = 0.0        # probability that a commit answered by a retriable failure was applied by the coordinator
 
 
 def last_sent(drv, what):
@@ -223,11 +225,17 @@ def commit_event(env, drv):
 
 
 def apply_store(env, drv, ev):
-    """coordinator side effect of a commit acknowledgement (called BEFORE the event is delivered)"""
+    """coordinator side effect of a commit acknowledgement (called BEFORE the event is delivered).  THE at-least-once
+    corner: now and then the coordinator applies a commit whose answer is lost (the consumer sees a retriable failure)"""
     if ev[0] == EV_COMMIT_OK and drv.commit_pending():
         off = last_sent(drv, "commit")[0]
         env.store.committed = off
         env.store.acked.append(off)
+    elif ev[0] == EV_COMMIT_FAIL and ev[1] == FK_KAFKA and drv.commit_pending() and env.lost_commits and env.rnd.random() < env.lost_commits:
+        off = last_sent(drv, "commit")[0]
+        if off is not None and off != NONE:
+            env.store.committed = off
+            env.store.lost.append(off)
 
 
 def honest_event(env, drv, weights):
@@ -281,11 +289,13 @@ def honest_event(env, drv, weights):
     return (t,)
 
 
-def honest_run(rnd, cfg, log, store, steps, weights=None, fault=0.12, first=None, drain=0, on_event=None, corrupt=0.0, **kw):
+def honest_run(rnd, cfg, log, store, steps, weights=None, fault=0.12, first=None, drain=0, on_event=None, corrupt=0.0,
+               lost_commits=0.0, **kw):
     """-> (events, driver, env).  `first`: events applied first (e.g. the start).  `drain`: afterwards let the system
     run fault-free with a processor that returns at once for up to `drain` steps (for the completeness monitor)."""
     CL.quiet()
     env = Env(rnd, log, store, fault, corrupt)
+    env.lost_commits = lost_commits
     drv = LDriver(cfg, **kw)
     drv.values_seen = []
     drv.escaped = None               # an exception that escaped a stimulus (never expected): recorded, the run ends
@@ -548,15 +558,16 @@ class ProcWindow(object):
 
 
 def epoch_state(events, steps):
-    """-> (delivered, successfully completed, offsets acknowledged by commit replies) since the last change of start
-    position (accepted start / offset request / offset-fetch request), from the trace alone"""
+    """-> (delivered, successfully completed, offsets acknowledged by commit replies, offsets sent in commit requests)
+    since the last change of start position (accepted start / offset request / offset-fetch request), from the trace alone"""
     pw = ProcWindow()
     acked, sent = [], None
+    allsent = []
     for ev, outs in zip(events, steps):
         accepted = not (outs and outs[0][0] == OUT_IGNORED)
         if ev[0] == EV_START and accepted and any(o[0] == OUT_RET for o in outs):
             pw.epoch()
-            acked = []
+            acked, allsent = [], []
         if ev[0] == EV_COMMIT_OK and accepted and sent is not None:
             acked.append(sent)
             sent = None
@@ -566,13 +577,14 @@ def epoch_state(events, steps):
         for o in outs:
             if o[0] in (OUT_OFFREQ, OUT_OFFFETCH):
                 pw.epoch()
-                acked = []
+                acked, allsent = [], []
             pw.out(o)
             if o[0] == OUT_COMMIT:
                 sent = o[1]
+                allsent.append(o[1])
             elif o[0] == OUT_CANCEL_REQ and o[1] == R_COMMIT:
                 sent = None
-    return pw.D, pw.done, acked
+    return pw.D, pw.done, acked, allsent
 
 
 def mon_commit(events, steps, ends):
